@@ -14,6 +14,11 @@ Trace events (one list per (program, simulation), merged by the parent), all dat
   ["detect", day, site, eqg, comp, company, emission_id, repairable]
                                                           update_detection_records issued by a sensor
                                                           (not through a tagging call)
+  ["wx", day, method, site, workable, temp, wind, precip, [tLo, tHi, wLo, wHi, pLo, pHi]]
+                                                          result of Method.check_weather and the cube
+                                                          values at the site's cell (hour Method.HOUR)
+  ["plancost", day, method, {site: site.get_survey_cost(method)}]   emitted before each deploy_crews
+  ["repaircost", day, "program"|"natural", amount, emission_id]     increments of EmisInfo cost totals
 Events keep the order in which the simulator produced them.
 """
 from __future__ import annotations
@@ -252,6 +257,72 @@ def install_wrappers():
     sm.simulate = simulate
 
 
+def install_crew_cost_wrappers():
+    """append-only additions for C08 / C10 (observation only)"""
+    from programs.method import Method
+    from programs.component_level_method import ComponentLevelMethod
+    from virtual_world.emission_types.repairable_emission import RepairableEmission
+    import constants.param_default_const as pdc
+
+    orig_cw = Method.check_weather
+
+    @functools.wraps(orig_cw)
+    def check_weather(self, weather, curr_date, site):
+        out = orig_cw(self, weather, curr_date, site)
+        try:
+            h = (curr_date.timetuple().tm_yday - 1) * 24 + Method.HOUR
+            la, lo = site.get_weather_lat(), site.get_weather_long()
+            env = self._weather_envs
+            mp = pdc.Method_Params
+            EVENTS.append(["wx", di(curr_date), self._name, str(site.get_id()), bool(out),
+                           float(weather.temps[h, la, lo]), float(weather.winds[h, la, lo]),
+                           float(weather.precip[h, la, lo]),
+                           [float(env[mp.TEMP][0]), float(env[mp.TEMP][1]), float(env[mp.WIND][0]),
+                            float(env[mp.WIND][1]), float(env[mp.PRECIP][0]), float(env[mp.PRECIP][1])]])
+        except Exception:
+            EVENTS.append(["wx", di(curr_date), self._name, str(site.get_id()), bool(out), None, None, None, None])
+        return out
+
+    Method.check_weather = check_weather
+
+    def wrap_deploy(cls):
+        orig = cls.__dict__.get("deploy_crews")
+        if orig is None:
+            return
+
+        @functools.wraps(orig)
+        def deploy_crews(self, workplan, weather, daylight):
+            try:
+                costs = {str(k): float(pl.get_site().get_survey_cost(self._name))
+                         for k, pl in workplan.site_survey_planners.items()}
+                EVENTS.append(["plancost", di(workplan.date), self._name, costs])
+            except Exception:
+                pass
+            return orig(self, workplan, weather, daylight)
+
+        cls.deploy_crews = deploy_crews
+
+    wrap_deploy(Method)
+    wrap_deploy(ComponentLevelMethod)
+
+    def wrap_cost(name, kind, field):
+        orig = getattr(RepairableEmission, name)
+
+        @functools.wraps(orig)
+        def f(self, emis_rep_info, *a, **k):
+            before = getattr(emis_rep_info, field)
+            out = orig(self, emis_rep_info, *a, **k)
+            after = getattr(emis_rep_info, field)
+            if after != before:
+                EVENTS.append(["repaircost", CTXT["day"], kind, float(after - before), self._emissions_id])
+            return out
+
+        setattr(RepairableEmission, name, f)
+
+    wrap_cost("check_if_repaired", "program", "repair_cost")
+    wrap_cost("natural_repair", "natural", "nat_repair_cost")
+
+
 def main():
     shim.install()
     shim.set_weather(_weather_fn())
@@ -264,6 +335,7 @@ def main():
 
     if TRACE_ON:
         install_wrappers()
+        install_crew_cost_wrappers()
     hook = JOB.get("pre_run_hook")
     if hook:
         # "module:function" called with the job before the run (used by checks that permute listings,
